@@ -409,3 +409,58 @@ def r18_3(ctx, repo):
             ctx.error(rule, '%s: renaming idiom not recognised' % construct)
     if n < 2:
         ctx.error(rule, 'only %d _check_parameters functions found' % n)
+
+
+def r18_4(ctx, repo):
+    """Dataset read-back keeps (chain, draw) pairs.
+
+    `_format_posterior` copies every posterior variable into
+    `posterior[:, :, k]` of shape (n_chains, n_draws).  The direct store
+    assumes the variable is laid out (chain, draw); the `except ValueError`
+    fallback handles the transposed layout (draw, chain) and must therefore
+    *transpose* it — a reshape keeps the memory order and pairs draws with
+    the wrong chains.  Decided with the layout engine: in the handler the
+    variable's values are (n_draws, n_chains)."""
+    rule = 'R18.4'
+    from ..shapes import ShapeLifter, Arr, Ax, TOP
+    from .layout import sym, _emit_events, ENG
+    NC, ND, NP = sym('n_chains'), sym('n_draws'), sym('n_parameters')
+    fn = repo.functions.get(('chi/_inference.py', '_format_posterior'))
+    if fn is None:
+        ctx.error(rule, 'anchor function _format_posterior vanished')
+        return
+    construct = '_format_posterior'
+
+    class L(ShapeLifter):
+        layout = (NC, ND)
+
+        def ev(self, n, env, fn_, depth, owner):
+            if isinstance(n, ast.Attribute) and n.attr == 'values':
+                return Arr([Ax(x) for x in self.layout])
+            return super().ev(n, env, fn_, depth, owner)
+    n = 0
+    for t in ast.walk(fn):
+        if not isinstance(t, ast.Try):
+            continue
+        for which, stmts, layout in (('direct store', t.body, (NC, ND)),) + \
+                tuple(('fallback', h.body, (ND, NC)) for h in t.handlers):
+            lf = L(repo, None, rel='chi/_inference.py')
+            lf.layout = layout
+            env = {'posterior': Arr([Ax(NC), Ax(ND), Ax(NP)]),
+                   'n_chains': NC, 'n_draws': ND, 'n_parameters': NP,
+                   'param_id': sym('k')}
+            try:
+                lf._block(stmts, env, fn, 0, None)
+            except Exception as e:
+                ctx.error(rule, '%s: %s: %s' % (construct, type(e).__name__,
+                                                e))
+                continue
+            n += 1
+            where = repo.loc(stmts[0], None, fn.name)
+            site = '%s (%s)' % (construct, which)
+            if not _emit_events(ctx, rule, repo, None, fn, lf, site):
+                ctx.ok(rule, where, site,
+                       'values laid out (%s) are stored as (chain, draw)' % (
+                           ', '.join(str(x) for x in layout)), engine=ENG)
+    if n < 4:
+        ctx.error(rule, 'only %d stores analysed (floor 4)' % n)
